@@ -144,6 +144,8 @@ def _i(v):
 # ---------------------------------------------------------------- generic
 @SPEC.fn("len")
 def _len(ex, st, v):
+    if isinstance(v, VOpt):
+        v = v.val
     if isinstance(v, (VStr, VBytes, VList)):
         return VInt(z3.Length(v.e)) if v.e is not None else VInt(0)
     if isinstance(v, VDict):
